@@ -39,6 +39,9 @@ CHECKS = {
  'C14': dict(level='model_checking', technique='symbolic execution (z3) of every deal encoder/decoder pair: 4x52-bit symbolic deals for binary/numpy/JSON; per-suit-shape explicit hands with symbolic ranks through the real PBN string builder and regex parser; deal line with codec contract; dealer with shuffle = arbitrary bijection',
              text='decode(encode(deal)) == deal and canonical form for all deals incl. partial ones (one query over 208 Booleans) for the tuple, numpy and JSON encodings; the PBN hand codec is executed per suit shape with symbolic ranks (characters symbolic) through the real regular expression; the deal line for every first seat and every present/empty pattern under the codec contract; the random dealer for every permutation.',
              note='Trusted: interpreter, z3, regex model (sre semantics, differential-tested), numpy model; quick tier covers 48 of the 560 suit shapes, thorough all.', ref='§4 C14'),
+ 'C09': dict(level='model_checking', engine='po', technique='SMT partial-order encoding (z3) of the recorded synchronisation traces of the real Server/PlayerThread/Client threads: all interleavings, deadlock query, completion and seeded-bug twins; forced-schedule replay on the real threads',
+             text='For each listed session every interleaving of the 9 real threads is covered by one z3 query over order variables and per-thread cuts (Event/Queue/Barrier/join/socket semantics as enabledness constraints): no reachable cut where every unfinished thread is parked at a disabled blocking operation. The traces come from the real code at every run and are validated (SPSC channels, identical under a perturbed schedule, run completed with End of session to all and a complete log). A sat model is forced on the real threads and reported only if the real server then stalls.',
+             note='Bounded to the listed sessions (<= 3 boards, bundled policies, two arrival orders). Trusted: the primitive semantics in engine/po.py, z3, the in-memory socket stub. Found the lapping deadlock of the original flag protocol (now fixed by 14a3277) and reproduces it by forced schedule.', ref='§2.3, §4 C09'),
 }
 
 
@@ -56,7 +59,7 @@ def main():
                 'thorough_cmd': f'python3-vt tools/check.py {pid} thorough',
                 'evidence_file': f'/verif/evidence/{pid}.json',
                 'replay_cmd_template': f'VERIF_REPO=/repo /venv/bin/python replay/replay.py {pid} {{path}}',
-                'engine': 'symex',
+                'engine': c.get('engine', 'symex'),
                 'level_claimed': {'category': c['level'], 'text': c['text'], 'design_ref': c['ref']},
                 'level_note': c['note'],
                 'technique': c['technique']})
@@ -68,8 +71,10 @@ def main():
                    'enable': 'no source hooks are needed: instrumentation is applied from the harness process (module globals of bridge_env.network_bridge.server are rebound to recording wrappers; sockets are in-memory fakes)',
                    'baseline_off_cmd': 'cd /repo && /venv/bin/python -m pytest -ra -q -p no:cacheprovider --timeout=900 --continue-on-collection-errors',
                    'source_commits': [], 'add_only': True},
-         'engines': [{'name': 'symex', 'path': 'engine/symx.py', 'serves_properties': sorted(CHECKS),
-                      'kind_free_text': SYMEX}],
+         'engines': [{'name': 'symex', 'path': 'engine/symx.py', 'serves_properties': sorted(k for k, c in CHECKS.items() if c.get('engine', 'symex') == 'symex'),
+                      'kind_free_text': SYMEX},
+                     {'name': 'po', 'path': 'engine/po.py', 'serves_properties': sorted(k for k, c in CHECKS.items() if c.get('engine') == 'po'),
+                      'kind_free_text': 'SMT partial-order encoding of per-thread synchronisation traces recorded from the real threads (engine/netrec.py): order variable per operation, cut per thread, enabledness constraints; deadlock/race queries; forced-schedule replay'}],
          'checks': checks, 'not_applicable': na,
          'notes': 'Exit codes: 0 held within the stated bounds; 1 VIOLATION (solver counterexample reproduced on the real code); 2 inconclusive (never a pass). VERIF_REPO selects the tree under test (default /repo).'}
     json.dump(m, open(os.path.join(V, 'MANIFEST.json'), 'w'), indent=1)
